@@ -4,7 +4,7 @@
 # change applied, restores /repo, and stores everything under /verif/seeded/<Cxx>-<k>/.
 set -u
 D=$1; WT=$2; C=$3; shift 3; EXTRA="$@"
-K=$(basename $D)
+K=${MUTANT_K:-$(basename $D)}
 ID="$C-$K"
 OUT=/verif/seeded/$ID
 mkdir -p $OUT
